@@ -750,6 +750,10 @@ impl Ctl {
         let name = format!("x05_{}_{}", std::process::id(), self.counter);
         let dir = std::env::temp_dir().join(format!("verif_{name}"));
         let _ = std::fs::remove_dir_all(&dir);
+        // left over from a killed earlier run with the same pid and counter
+        for suffix in ["", "_a", "_b"] {
+            let _ = std::fs::remove_file(format!("/dev/shm/cascette_{name}{suffix}"));
+        }
         std::fs::create_dir_all(&dir).expect("scratch dir");
         // workers: reuse the living ones, replace the dead
         while self.kids.len() < n {
